@@ -83,10 +83,12 @@ class Lib:
         return seen
 
 
-def _args(rng: random.Random, n: int, own_params: list[str]) -> list[str]:
+def _args(rng: random.Random, n: int, own_params: list[str], intlike_first: bool = False) -> list[str]:
     out = []
-    for _ in range(n):
+    for i in range(n):
         c = rng.random()
+        if i == 0 and intlike_first and c >= 0.8:
+            c = 0.7  # the first parameter of this callee is used in a condition: integer-like arguments only
         if own_params and c < 0.4:
             out.append(rng.choice(own_params))
         elif c < 0.6:
@@ -152,7 +154,8 @@ def gen_lib(rng: random.Random, shape: str | None = None, n: int | None = None) 
         m.call_first = rng.random() < 0.3
         lib.macros[nm] = m
     for m in lib.macros.values():
-        m.arg_plan = [_args(rng, len(lib.macros[c].params) + (1 if rng.random() < 0.1 else 0), m.params) for c in m.callees]
+        m.arg_plan = [_args(rng, len(lib.macros[c].params) + (1 if rng.random() < 0.1 else 0), m.params, lib.macros[c].early_return)
+                      for c in m.callees]
     # callee-first order
     memo: dict = {}
     lib.order = sorted(names, key=lambda nm: (lib.depth(nm, memo), nm))
@@ -160,8 +163,50 @@ def gen_lib(rng: random.Random, shape: str | None = None, n: int | None = None) 
     calls = list(roots)
     calls += rng.sample(names, rng.randint(0, min(2, len(names))))
     rng.shuffle(calls)
-    lib.main_calls = [(nm, _args(rng, len(lib.macros[nm].params), [])) for nm in calls]
+    lib.main_calls = [(nm, _args(rng, len(lib.macros[nm].params), [], lib.macros[nm].early_return)) for nm in calls]
     return lib
+
+
+def inlined_source(lib: Lib, variants: dict[str, str] | None = None) -> str:
+    """The program the property compares with: no macros at all, every call replaced by the macro's body with the
+    parameters substituted by the call's arguments, `return` leaving only the macro (a jump to a label placed right
+    after the expansion) and the body's labels private to each expansion (renamed per expansion). Written from the
+    structure of the library, independently of the compiler."""
+    variants = variants or {}
+    counter = [0]
+
+    def expand(name: str, args: list[str], ind: str) -> list[str]:
+        m = lib.macros[name]
+        counter[0] += 1
+        k = counter[0]
+        bind = {p: (args[i] if i < len(args) else p) for i, p in enumerate(m.params)}
+
+        def sub(text: str) -> str:
+            return bind.get(text, text)
+
+        t = f"t_{m.name}_{variants.get(m.name, 'a')}"
+        out = []
+        first_call = m.call_first and m.callees
+        if not first_call:
+            out.append(f"{ind}{t}_0({', '.join(sub(p) for p in m.params)});")
+        if m.posmark and not first_call:
+            out.append(f"{ind}{t}_p(Position<'pm_{m.name}', 3, 4.5>);")
+        if m.early_return and m.params and not first_call:
+            out += [f"{ind}if ({sub(m.params[0])} == 1) {{", f"{ind}    {t}_r();", f"{ind}    jump @ret_{k};", f"{ind}}}"]
+        if m.label and not first_call:
+            out += [f"{ind}@inner_{m.name}_{k};", f"{ind}{t}_l();", f"{ind}if ($LOOP_{m.name} < 3) {{ jump @inner_{m.name}_{k}; }}"]
+        for i, (callee, cargs) in enumerate(zip(m.callees, m.arg_plan)):
+            out += expand(callee, [sub(a) for a in cargs], ind)
+            out.append(f"{ind}{t}_{i + 1}();")
+        out.append(f"{ind}@ret_{k};")
+        return out
+
+    lines = ["def 0 {", "    main_0();"]
+    for i, (name, args) in enumerate(lib.main_calls):
+        lines += expand(name, list(args), "    ")
+        lines.append(f"    main_{i + 1}();")
+    lines += ["    end;", "}"]
+    return "\n".join(lines) + "\n"
 
 
 def single_file_source(lib: Lib, order: list[str], variants: dict[str, str] | None = None, only: set[str] | None = None) -> str:
